@@ -132,6 +132,10 @@ func sameWriter(x LogWriter, w io.Writer) bool {
 	if xl, ok := x.(*logwr); ok && sameValue(xl.Writer, w) {
 		return true
 	}
+	// the default destinations are os.Stdout / os.Stderr wrapped by filewr
+	if xf, ok := x.(*filewr); ok && xf.File != nil && sameValue(xf.File, w) {
+		return true
+	}
 	return sameValue(x, w)
 }
 
